@@ -3,4 +3,5 @@ INVARIANT NoDataIsZero
 INVARIANT CapAt40
 INVARIANT Grows
 INVARIANT IdleHighestPerSmoke
+INVARIANT ModesIndependent
 CHECK_DEADLOCK FALSE
